@@ -27,10 +27,12 @@ _REGISTRY: dict = {}
 def concrete(seed: int):
     old = _MODE["concrete"]
     _MODE["concrete"] = int(seed)
+    jax.clear_caches()          # jitted callees cache their trace: never reuse a trace across modes
     try:
         yield
     finally:
         _MODE["concrete"] = old
+        jax.clear_caches()
 
 
 def registry():
